@@ -712,10 +712,10 @@ template<typename T> static std::string o_trunc(const std::vector<std::string>& 
   cuts.push_back(file.size());
   for (size_t cut : cuts)
     for (int smode = 0; smode < 3; ++smode) {
-      alarm(20);
+      hv::cpu_alarm(20);
       try { read_and_setup<T>(file.substr(0, cut), smode, via, std::is_same<T, float>::value ? NAN_Z : -1); ++n_ok; }
       catch (std::exception&) {}
-      alarm(0);
+      hv::cpu_alarm(0);
     }
   if (n_ok < 1) return "the complete file was not readable";
   return "ok";
@@ -743,10 +743,10 @@ template<typename T> static std::string o_fuzz(const std::vector<std::string>& w
     if (rnd() % 5 == 0) file.resize(rnd() % (file.size() + 1));
     if ((kAsan && huge_alloc(file)) || long_running(file)) continue;
     for (int smode = 0; smode < 3; ++smode) {
-      alarm(20);
+      hv::cpu_alarm(20);
       try { read_and_setup<T>(file, smode, via, std::is_same<T, float>::value ? NAN_Z : -1); }
       catch (std::exception&) {}
-      alarm(0);
+      hv::cpu_alarm(0);
     }
   }
   return "ok";
@@ -782,7 +782,7 @@ static std::string gz_cmd(const std::vector<std::string>& w, bool want_hash) {
   std::string path = tmp_path(".gz");
   write_file(path, bytes);
   std::string res;
-  alarm(10);
+  hv::cpu_alarm(10);
   try {
     MaybeGzipped in(path);
     CharArray a = in.uncompress_into_buffer();
@@ -793,7 +793,7 @@ static std::string gz_cmd(const std::vector<std::string>& w, bool want_hash) {
       res += " " + std::to_string(h);
     }
   } catch (std::exception&) { res = "EXC"; }
-  alarm(0);
+  hv::cpu_alarm(0);
   std::remove(path.c_str());
   return res;
 }
@@ -894,7 +894,7 @@ static std::string handle(const std::string& cmd, const std::string& args) {
 }
 
 int main() {
-  signal(SIGALRM, on_alarm);
+  hv::install_alarm_handler(on_alarm);
   if (!kAsan) {   // address-space limit so that absurd allocations throw std::bad_alloc
     struct rlimit rl; rl.rlim_cur = rl.rlim_max = 2ull << 30; setrlimit(RLIMIT_AS, &rl);
   }
